@@ -25,42 +25,21 @@ def gen_cases(rng, tier):
 
 
 def build_with_paths(t, path, reg):
-    """like rollers.build but registers id(roller) -> path"""
-    from dyce import H
-    from dyce.r import R, PoolRoller, SubstitutionRoller, RollOutcome, CoalesceMode
-    import gens
-    k = t[0]
-    if k in ("val", "h", "p"):
-        r = rl.build(t)
-    elif k == "pool":
-        r = PoolRoller(sources=[build_with_paths(x, path + [i], reg) for i, x in enumerate(t[1])])
-    elif k == "repeat":
-        r = t[1] @ build_with_paths(t[2], path + [0], reg)
-    elif k == "bin":
-        r = rl.BIN[t[1]][1](build_with_paths(t[2], path + [0], reg), build_with_paths(t[3], path + [1], reg))
-    elif k == "un":
-        r = rl.UN[t[1]][1](build_with_paths(t[2], path + [0], reg))
-    elif k == "select":
-        r = R.select_from_sources(pools.py_which(t[1]), *[build_with_paths(x, path + [i], reg) for i, x in enumerate(t[2])])
-    elif k == "filter":
-        f = rl.PRED[t[1]][1]
-        r = R.filter_from_sources(lambda o: f(o.value), *[build_with_paths(x, path + [i], reg) for i, x in enumerate(t[2])])
-    elif k == "subst":
-        src = build_with_paths(t[4], path + [0], reg)
-        tbl = {Fraction(*v): e for v, e in t[1]}
-
-        def expansion_op(outcome):
-            e = tbl.get(Fraction(outcome.value))
-            if e is None or e[0] == "keep":
-                return outcome
-            if e[0] == "out":
-                return RollOutcome(gens.py_outcome(e[1]))
-            return src.roll()
-        r = SubstitutionRoller(expansion_op, src, CoalesceMode.APPEND if t[2] else CoalesceMode.REPLACE, t[3])
-    else:
-        raise ValueError(k)
-    reg[id(r)] = (path, r)
+    """rollers.build (all public spellings) + registration id(roller) -> position in the tree"""
+    r = rl.build(t)
+    _register(r, t, path, reg)
     return r
+
+
+def _register(r, t, path, reg):
+    reg[id(r)] = (path, r)
+    k = t[0]
+    kids = {"pool": lambda: t[1], "select": lambda: t[2], "filter": lambda: t[2], "repeat": lambda: [t[2]],
+            "bin": lambda: [t[2], t[3]], "un": lambda: [t[2]], "subst": lambda: [t[4]]}.get(k, lambda: [])()
+    srcs = list(r.sources)
+    assert len(srcs) == len(kids), (k, len(srcs), len(kids))
+    for i, (sr, st) in enumerate(zip(srcs, kids)):
+        _register(sr, st, path + [i], reg)
 
 
 def _owner(o, reg):
